@@ -333,7 +333,11 @@ func evalC02(c *Ctx, cs *Case) {
 		}
 		for _, pos := range positions {
 			for _, class := range gen.AllClasses {
-				for variant := 0; variant < 2; variant++ {
+				nVariants := 2
+				if class == gen.M2EmptyText && lines[pos].Depth == 1 {
+					nVariants = 4 // also "#" and "## " (a heading without text)
+				}
+				for variant := 0; variant < nVariants; variant++ {
 					inj, row, ok := gen.Inject(lines, sp, class, pos, variant)
 					if !ok {
 						continue
